@@ -16,7 +16,7 @@ def tokens(chk, alpha, maxlen, relevant, nontrivial, workers=12, timeout=1500):
     tag = f"tokens_{alpha}{maxlen}"
     info, summ = vf.run_model(tag, "MC_Tokens.tla", {"MaxLen": maxlen, "AlphaName": alpha}, chk.outdir,
                               workers=workers, timeout=timeout)
-    chk.add_model(info, summ, relevant, nontrivial,
+    chk.add_model(info, summ, relevant, nontrivial, must_occur=["class_WF", "class_IF"],
                   note=f"all token sequences of length <= {maxlen} over the '{alpha}' alphabet of MC_Tokens.tla")
     return info, summ
 
@@ -154,6 +154,10 @@ def c10(chk):
                               workers=12 if chk.tier == "quick" else 16, env_extra={"PRIMS": prims}, timeout=3000)
     chk.add_model(info, summ, {"builtin", "panic"}, ["builtin_nontrivial"],
                   note=f"49 builtins x argument shapes of arity 0..4 over the '{pool}' pools of Pools.tla")
+    traces(chk, "builtins", "trace_builtins", quick=(4, 2000), thorough=(16, 10000),
+           note="random calls of the 49 builtins: full-range integers, random bit-pattern doubles from a per-trace pool, random "
+                "Unicode strings and byte indices, nested tuples; undocumented corners (NaN in min/max, shift amounts outside "
+                "0..63, empty-valued needles) are not generated")
 
 
 CTX_FLOATS = [[16368, 0, 0, 0], [16384, 0, 0, 0], [16376, 0, 0, 0], [16388, 0, 0, 0]]
@@ -166,7 +170,9 @@ def ctx_model(chk, size, relevant, simulate=None, workers=12, timeout=1500):
     info, summ = vf.run_model(tag, "MC_Ctx.tla", {"Size": size, "WithSerde": False}, chk.outdir,
                               invariants=("TypeOK",), properties=CTX_PROPS, view="View", constraint="InDomain",
                               workers=workers, timeout=timeout, env_extra={"PRIMS": prims}, simulate=simulate)
+    ops = ["set_value", "eval", "get_value", "clear_variables", "clear_functions", "clear", "set_function", "set_builtins", "clone"]
     chk.add_model(info, summ, relevant, ["history_len2"], exhaustive=simulate is None,
+                  must_occur=[f"history_last_{o}" for o in ops],
                   note=f"MC_Ctx.tla size={size}: all reachable abstract context states x all operations"
                        + (f"; random walks {simulate}" if simulate else ""))
 
@@ -216,6 +222,8 @@ def c11(chk):
                 "non-trivial = distinct (program, context, mode) cases")
     prog_model(chk, "imm", 1 if chk.tier == "quick" else 2, {"imm", "panic"}, ["imm_nontrivial"],
                workers=12 if chk.tier == "quick" else 16, timeout=3000)
+    traces(chk, "programs", "trace_programs",
+           note="random programs through random entry points (20% immutable) on a context that persists across programs")
 
 
 def c12(chk):
@@ -225,6 +233,9 @@ def c12(chk):
                workers=12 if chk.tier == "quick" else 16, timeout=3000)
     # ill-formed and unspecified inputs as well: precompilation errors are returned unchanged, string = tree level
     tokens(chk, "core", 4 if chk.tier == "quick" else 5, {"entry_consistency", "panic"}, ["if", "unspec"])
+    traces(chk, "programs", "trace_programs",
+           note="random programs, each through a random one of the 48 entry points (string / tree level, eight result kinds, "
+                "fresh / shared / mutable context)")
 
 
 def c09(chk):
